@@ -90,6 +90,11 @@ def main():
     tryit("steps", lambda: ta.get_profiler_steps())
     tryit("kernel_breakdown", lambda: [df.sort_values(list(df.columns[:2])).to_dict("records") for df in
                                        ta.get_gpu_kernel_breakdown(visualize=False, num_kernels=3)])
+    def annot(gpu):
+        df = ta.get_gpu_user_annotation_breakdown(use_gpu_annotation=gpu, visualize=False, num_kernels=3)
+        return None if df is None else df.sort_values(list(df.columns[:2])).to_dict("records")
+    tryit("gpu_annotation_breakdown", lambda: annot(True))
+    tryit("cpu_annotation_breakdown", lambda: annot(False))
     # ranks added to ONE Trace object step by step: ids assigned in an earlier step must not move, every rank must still decode
     def incremental():
         t2 = tr.Trace(trace_files=files, trace_dir=d)
